@@ -37,6 +37,7 @@ def shards(tier, seed):
     res += [{'part': 'random', 'idx': i, 'n': N_EXAMPLES[tier]} for i in range(4)]
     res += [{'part': 'inject', 'idx': i, 'of': 4} for i in range(4)]
     res += [{'part': 'module', 'idx': 0, 'n': N_EXAMPLES[tier]}]
+    res += [{'part': 'module-inject', 'idx': i} for i in range(len(MODULE_SCENARIOS))]
     return res
 
 
@@ -526,15 +527,13 @@ SCENARIOS = [
 # --------------------------------------------------------------------------------------------
 # module level
 
-def module_history(ctx, case):
+def make_module(case, statuses):
     import threading as th
     from frappy.core import Drivable, Parameter, FloatRange, BUSY, IDLE
     from frappy.states import HasStates, Retry, Finish, status_code
     from frappy.modulebase import PollInfo
     from frappy.lib import generalConfig
     generalConfig.testinit(omit_unchanged_within=0)
-    ctx.ev()
-    statuses = []
 
     class M(HasStates, Drivable):
         value = Parameter(datatype=FloatRange(), default=0)
@@ -600,6 +599,13 @@ def module_history(ctx, case):
     m = M('m', L(), {'description': 'd'}, srv)
     m.initModule()
     m.pollInfo = PollInfo(1, th.Event())
+    return m
+
+
+def module_history(ctx, case):
+    ctx.ev()
+    statuses = []
+    m = make_module(case, statuses)
     key = repr(case)
     expect_busy = False
     stopped = False
@@ -651,6 +657,101 @@ def module_history(ctx, case):
     ctx.sample({'module-history': case, 'statuses': statuses[:10]}, every=97)
 
 
+MODULE_INJECT_FRAMES = ('cycle', '_cleanup', '_new_state', '_update_attributes', 'is_active', 'state_transition', 'cycle_machine',
+                        'read_status', 'get_status', 'final_status', 'on_cleanup')
+
+
+def module_injected(ctx, case, inj, position):
+    """a second thread calls stop_machine / start_machine between two lines executed by the cycling thread (module level: the
+    status bookkeeping of HasStates included); position None = count the line events only"""
+    import frappy.lib.statemachine as smmod
+    import frappy.states as stmod
+    files = (smmod.__file__, stmod.__file__)
+    statuses = []
+    m = make_module(case, statuses)
+    sm = m._state_machine
+    state = {'n': 0, 'done': position is None, 'at': None}
+    raised = []
+
+    def do(o):
+        if o == 'start':
+            m.start_machine(m.state_plain if case.get('first') == 'plain' else m.state_a)
+        elif o == 'stop':
+            m.stop_machine()
+        else:
+            m.cycle_machine()
+
+    def tracer(frame, event, arg):
+        if frame.f_code.co_filename not in files:
+            return None
+        if event == 'line' and frame.f_code.co_name in MODULE_INJECT_FRAMES:
+            if not state['done'] and state['n'] >= position and not sm._lock.locked():
+                state['done'] = True
+                state['at'] = (frame.f_code.co_name, frame.f_lineno)
+                sys.settrace(None)
+                try:
+                    do(inj)
+                except Exception as e:   # noqa
+                    raised.append(('injected ' + inj, e))
+                sys.settrace(tracer)
+            state['n'] += 1
+        return tracer
+    sys.settrace(tracer)
+    try:
+        for o in case['ops']:
+            try:
+                do(o)
+            except Exception as e:   # noqa
+                raised.append((o, e))
+                break
+    finally:
+        sys.settrace(None)
+    if position is None:
+        return state['n']
+    ctx.ev()
+    sub = dict(case, kind='module-inject', inj=inj, position=position)
+    where = state['at'][0] if state['at'] else 'not-reached'
+    ctx.label(f'module-inject-at:{where}')
+    if state['at'] is None:
+        return state['n']
+    ctx.nt(('module-inject', repr(case), inj, position))
+    if raised:
+        o, e = raised[0]
+        ctx.finding(f'module-inject:raises:{type(e).__name__}:{where}', sub, f'{o}: {e!r}; {inj} injected in {state["at"]}')
+        return state['n']
+    # settle: the machine finishes (or keeps retrying); afterwards status and machine agree
+    last = inj if inj in ('start', 'stop') else None
+    try:
+        for _ in range(14):
+            m.cycle_machine()
+    except Exception as e:   # noqa
+        ctx.finding(f'module-inject:raises-later:{type(e).__name__}:{where}', sub, repr(e))
+        return state['n']
+    code, text = int(m.read_status()[0]), m.read_status()[1]
+    if sm.is_active:
+        if not 300 <= code < 400:
+            ctx.finding(f'module-inject:not-busy-while-running:{where}', sub, f'status {m.read_status()!r}, {inj} injected in {state["at"]}')
+    else:
+        if 300 <= code < 400 or text in ('stopping', 'restarting'):
+            ctx.finding(f'module-inject:transient-status-left-behind:{inj}:{text if text in ("stopping", "restarting") else "busy"}', sub,
+                        f'status {m.read_status()!r} with the machine inactive; {inj} injected in {state["at"]}')
+        else:
+            ctx.ok('module-inject-consistent')
+    return state['n']
+
+
+MODULE_SCENARIOS = [
+    {'retries': 1, 'chain': True, 'b': 'finish', 'cleanup_cycles': 0, 'first': 'coded', 'ops': ['start', 'cycle', 'cycle', 'cycle']},
+    {'retries': 2, 'chain': False, 'b': 'finish', 'cleanup_cycles': 1, 'first': 'plain', 'ops': ['start', 'cycle', 'stop', 'cycle', 'cycle', 'cycle']},
+    {'retries': 1, 'chain': True, 'b': 'retry', 'cleanup_cycles': 3, 'first': 'coded', 'ops': ['start', 'cycle', 'cycle', 'start', 'cycle', 'cycle', 'stop', 'cycle']},
+    {'retries': 0, 'chain': True, 'b': 'raise', 'cleanup_cycles': 1, 'first': 'plain', 'ops': ['start', 'cycle', 'cycle', 'cycle']},
+    {'retries': 0, 'chain': True, 'b': 'bare-finish', 'cleanup_cycles': 0, 'first': 'coded', 'ops': ['start', 'cycle', 'stop', 'start', 'cycle', 'cycle']},
+    # a restart of a running machine: the old run ends with the new start pending
+    {'retries': 3, 'chain': True, 'b': 'retry', 'cleanup_cycles': 0, 'first': 'plain', 'ops': ['start', 'cycle', 'start', 'cycle', 'cycle', 'cycle']},
+    {'retries': 3, 'chain': True, 'b': 'retry', 'cleanup_cycles': 1, 'first': 'coded', 'ops': ['start', 'cycle', 'start', 'cycle', 'cycle', 'cycle', 'cycle']},
+]
+
+
 @st.composite
 def module_case(draw):
     return {'kind': 'module', 'retries': draw(st.integers(0, 3)), 'chain': draw(st.booleans()), 'b': draw(st.sampled_from(['finish', 'retry', 'raise', 'bare-finish'])),
@@ -697,6 +798,13 @@ def run_shard(ctx, shard):
             total = run_injected(ctx, PROGRAMS[pi], SCENARIOS[si], inj, None)
             for pos in range(total):
                 run_injected(ctx, PROGRAMS[pi], SCENARIOS[si], inj, pos)
+    elif shard['part'] == 'module-inject':
+        sc = dict(MODULE_SCENARIOS[shard['idx']], kind='module-inject')
+        for inj in ('stop', 'start'):
+            total = module_injected(ctx, sc, inj, None)
+            for pos in range(total):
+                module_injected(ctx, sc, inj, pos)
+        ctx.extra['module_level_injection_complete'] = True
     else:
         drive(module_case(), lambda case: module_history(ctx, case), shard['n'] * 3, ctx.seed * 1000 + 77)
 
@@ -708,5 +816,8 @@ def run_case(ctx, case):
         run_sequential(ctx, case['prog'], case['ops'])
     elif case['kind'] == 'inject':
         run_injected(ctx, case['prog'], case['ops'], case['inj'], case['position'])
+    elif case['kind'] == 'module-inject':
+        if case.get('inj') in ('start', 'stop') and isinstance(case.get('position'), int) and all(o in ('start', 'stop', 'cycle') for o in case['ops']):
+            module_injected(ctx, case, case['inj'], case['position'])
     else:
         module_history(ctx, case)
